@@ -522,6 +522,7 @@ type hsWorld struct {
 	net      *simnet.Net
 	bg       context.Context
 	served   []string // payloads the server's handler received
+	freshSids []string // session ids the server gave to full (non-resumed) handshakes
 	srvErrs  []string
 	stop     bool
 	nconn    int
@@ -599,6 +600,9 @@ func runHandshakes(s *kernel.Sim, c *scen.Case) {
 			return err
 		}
 		w.served = append(w.served, string(b))
+		if c.Negotiation != nil && !c.Negotiation.SessionResumed {
+			w.freshSids = append(w.freshSids, c.Negotiation.SessionId)
+		}
 		r := message.NewMessageForStream(c.Stream)
 		if err := r.PutBytes(hctx, append([]byte("ok:"), b...)); err != nil {
 			return err
@@ -721,6 +725,16 @@ func runHandshakes(s *kernel.Sim, c *scen.Case) {
 			s.Violate("panic", "handshakes/"+shape, fmt.Sprintf("%s: %v\n%s", tk.Name, tk.Panic, tk.Stack))
 			return
 		}
+	}
+	// every full handshake got a session id of its own (two sessions under one id would
+	// overwrite each other in the shared cache)
+	seenSid := map[string]bool{}
+	for _, id := range w.freshSids {
+		if seenSid[id] {
+			s.Violate("duplicate-session-id", shape, fmt.Sprintf("two concurrent full handshakes were given the same session id %q", id))
+			return
+		}
+		seenSid[id] = true
 	}
 	// fault-free network, long-lived sessions: every connection must have worked, in isolation
 	served := map[string]int{}
